@@ -85,6 +85,22 @@ CLAIMED = {
             "trusted: pyvc, z3, cvc5",
             "contract-based deductive verification: VCs generated from the AST of the real functions and their SQL text, "
             "discharged by z3 / cvc5"),
+    "C09": ("proof",
+            "Deductive proof of the single-endpoint part: (1) the real AsyncFIXConnection.__init__ over the real "
+            "Journaler.create_or_load (sqlite3 contract model) restores exactly the stored counters + 1 for every journal "
+            "content; (2) after every handler - _process_message for every message type and sequence number, send_msg, "
+            "disconnect, reset_seq_num - the stored counters equal the live ones, so at every quiescent point a successor "
+            "holds what the old object held; (3) program-point obligation on send_msg: a new MsgSeqNum is journaled "
+            "(committed) before its frame reaches the transport, so a successor of a process killed while sending never "
+            "reuses a number. One genuine defect repaired (fix: 903f47f write-before-journal), one recorded as known "
+            "finding (C09-KF1 inbound SequenceReset leaves the stored inbound counter behind; pinned by the suite). The "
+            "two-endpoint sentence (session continues after reconnect without ResendRequest) is not decided.",
+            "DESIGN.md 4/C09 and 9",
+            "not decided: the continuation sentence (needs the peer, cf. C07); a kill between on_message() and the "
+            "journaling of that inbound message re-delivers it (deliver-then-journal) - out of scope; assumed: journal "
+            "contracts (proved in C13/C08), _process_resend contract (its effect on the stored outbound counter excluded), "
+            "encode contract, hooks, transport; trusted: pyvc, z3",
+            "contract-based deductive verification: VCs generated from the AST of the real functions, discharged by z3"),
     "C08": ("proof",
             "Deductive proof of crash consistency over a transactional ghost of the sqlite3 contract (pending / durable "
             "table states): for every Journaler method, on every path, (1) at every commit site of the real code the "
